@@ -2665,5 +2665,13 @@ pub mod verif {
         pub fn verif_global_group_data_ctr_state(&self) -> (u32, u32) {
             (self.global_group_data_ctr, self.group_data_ctr_boundary)
         }
+
+        /// The tracked group senders of the group receive path: `(fabric index, source
+        /// node id, highest accepted counter, bitmap, LRU stamp)`. Read-only.
+        pub fn verif_group_ctr_entries(
+            &self,
+        ) -> impl Iterator<Item = (u8, u64, u32, u16, u32)> + '_ {
+            self.group_ctr_store.verif_entries()
+        }
     }
 }
